@@ -828,6 +828,21 @@ func runC07(res *lp.Result) {
 	}
 }
 
+// interruptingWriter runs `during` inside its first Write, before it takes the bytes it was given
+type interruptingWriter struct {
+	buf    bytes.Buffer
+	during func()
+	done   bool
+}
+
+func (w *interruptingWriter) Write(p []byte) (int, error) {
+	if !w.done {
+		w.done = true
+		w.during()
+	}
+	return w.buf.Write(p)
+}
+
 func runC08(res *lp.Result) {
 	res.Rule = "byte strings of 0 .. 131071 bytes (raw segment-payload format) and up to several MiB (length-prefixed frame-body format): " +
 		"empty, single byte, all-equal, long repeats (ratios up to ~250:1), text-like, random; LZ4 and Snappy; compress then decompress " +
@@ -948,6 +963,21 @@ func runC08(res *lp.Result) {
 					}
 					if !bytes.Equal(out, in) {
 						res.Add(lp.Finding{Kind: "violation", What: c.name + " " + format + ": decompress(compress(x)) differs from x", Input: id})
+					}
+					// the destination is any io.Writer, and a Write may take its time: while the restored message is being handed over,
+					// the compressor is used for ANOTHER message (here from inside the destination's first Write — what a second
+					// goroutine does at that moment, made deterministic); the first message must arrive unharmed
+					if sz > 0 && sz <= 70000 && format == "with-length" {
+						other := bytes.Repeat([]byte("ANOTHER MESSAGE "), sz/16+2)
+						var cz bytes.Buffer
+						comp := map[string]frame.BodyCompressor{"lz4": l, "snappy": s}[c.name]
+						if comp.CompressWithLength(bytes.NewReader(other), &cz) == nil {
+							w := &interruptingWriter{during: func() { comp.DecompressWithLength(bytes.NewReader(cz.Bytes()), io.Discard) }}
+							if err := comp.DecompressWithLength(bytes.NewReader(z), w); err == nil && !bytes.Equal(w.buf.Bytes(), in) {
+								res.Add(lp.Finding{Kind: "violation", What: c.name + ": a message being written to its destination is changed by the decompression of another message in the meantime", Input: id})
+							}
+							res.Count("interrupted-destination")
+						}
 					}
 					if sz > 0 {
 						res.Count(fmt.Sprintf("ratio/%s/%d", c.name, minInt(len(in)/maxInt(len(z), 1), 300)/25*25))
